@@ -11,6 +11,7 @@ PROBES = [("RangeStmt.asis.D16.cfg", "Sound", "factor >= 2^(W-1) not refused (D1
           ("RangeStmt.asis.D6p.cfg", "NoPanic", "range proof on a disclosed index below the largest hidden one panics (D6)"),
           ("RangeStmt.asis.D23.cfg", "AttachSound", "structures memoised in a ProofD object survive a change of the carried range proofs (D23)"),
           ("RangeStmt.asis.M.cfg", "AttachSound", "m-response of the range proof not overridden"),
+          ("RangeStmt.asis.D27.cfg", "AttachSound", "range proof commitments C_i = 0 mod n not refused (D27)"),
           ("RangeStmt.vacuity.cfg", "NothingAccepted", "some proof is accepted"),
           ("RangeStmt.vacuity2.cfg", "OnlyHonestAccepted", "a benign alteration (l_d) is accepted")]
 
